@@ -17,6 +17,45 @@ def wire_relation(rel):
     return {'vars': list(rel.variables), 'mat': [[wire_poly(p) for p in row] for row in rel.matrix]}
 
 
+_ORD = 'omwpi'
+
+
+def ref_eval(wpoly, choice):
+    """the value of a polynomial (wire form: the stored monomial list) at a choice vector, read directly from the
+    definition: the greatest scalar among the monomials all of whose deltas agree with the choice, zero if none"""
+    best = 'o'
+    for m in wpoly:
+        if all(choice[j] == v for v, j in m['d']) and _ORD.index(m['s']) > _ORD.index(best):
+            best = m['s']
+    return best
+
+
+def max_index(wpolys):
+    return max([j for wp in wpolys for m in wp for _, j in m['d']] + [-1])
+
+
+def evaluator_mismatch(poly, wpoly, choices):
+    """first choice vector at which the code's own evaluator (Polynomial.choice_scalar) differs from ref_eval"""
+    for c in choices:
+        got = poly.choice_scalar(*c) or 'o'
+        want = ref_eval(wpoly, c)
+        if got != want:
+            return {'choice': list(c), 'choice_scalar': got, 'by_definition': want}
+    return None
+
+
+def relation_evaluator_mismatch(rel, wrel, choices):
+    """the same for Relation.apply_choice, cell by cell"""
+    for c in choices:
+        got = rel.apply_choice(*c).matrix
+        for i, row in enumerate(wrel['mat']):
+            for j, wp in enumerate(row):
+                want = ref_eval(wp, c)
+                if got[i][j] != want:
+                    return {'choice': list(c), 'cell': [wrel['vars'][i], wrel['vars'][j]], 'apply_choice': got[i][j], 'by_definition': want}
+    return None
+
+
 def smat(simple):
     return [''.join(row) for row in simple.matrix]
 
